@@ -12,3 +12,122 @@ pub(crate) fn scalar_table() -> ResolvedF32Kernels {
         dot_and_norms: dot_and_norms_f32_scalar_entry,
     }
 }
+
+// -------------------------------------------------------------------------------------------
+// C17 O17.1 — the x86 kernels stay inside their input slices for every length, including lengths
+// that are not a multiple of the SIMD width.  Inputs live in exact-size heap allocations, so an
+// access past `len` is an access past the object and is reported by CBMC's pointer checks.
+// Arithmetic intrinsics Kani cannot model (FMA, AVX-512 arithmetic) are stubbed to return their
+// accumulator operand: values are irrelevant to bounds.  Loads/stores are NOT stubbed.
+// -------------------------------------------------------------------------------------------
+#[cfg(target_arch = "x86_64")]
+pub(crate) mod x86 {
+    use super::*;
+    use std::arch::x86_64::*;
+
+    pub fn fmadd256(_a: __m256, _b: __m256, c: __m256) -> __m256 {
+        c
+    }
+    pub fn fmadd512(_a: __m512, _b: __m512, c: __m512) -> __m512 {
+        c
+    }
+    pub fn add512(a: __m512, _b: __m512) -> __m512 {
+        a
+    }
+    pub fn sub512(a: __m512, _b: __m512) -> __m512 {
+        a
+    }
+    pub fn mask3_fmadd512(_a: __m512, _b: __m512, c: __m512, _k: __mmask16) -> __m512 {
+        c
+    }
+
+    fn exact_vec(len: usize, max: usize) -> Vec<f32> {
+        // exact-size allocation (capacity == len) with arbitrary finite-or-not contents
+        let mut v: Vec<f32> = Vec::with_capacity(len);
+        let mut i = 0;
+        while i < max {
+            if i < len {
+                v.push(kani::any());
+            }
+            i += 1;
+        }
+        v
+    }
+
+    pub fn binary_body(kernel: fn(&[f32], &[f32]) -> f32, max: usize, witness: bool) {
+        let len: usize = kani::any();
+        kani::assume(len >= 1 && len <= max);
+        let a = exact_vec(len, max);
+        let b = exact_vec(len, max);
+        let r = kernel(&a, &b);
+        if witness {
+            kani::cover!(len == max, "longest length reachable");
+            kani::cover!(len == 1, "shortest length reachable");
+        }
+        let _ = r;
+    }
+
+    pub fn unary_body(kernel: fn(&[f32]) -> f32, max: usize, witness: bool) {
+        let len: usize = kani::any();
+        kani::assume(len >= 1 && len <= max);
+        let a = exact_vec(len, max);
+        let r = kernel(&a);
+        if witness {
+            kani::cover!(len == max, "longest length reachable");
+            kani::cover!(len == 1, "shortest length reachable");
+        }
+        let _ = r;
+    }
+
+    pub fn triple_body(kernel: fn(&[f32], &[f32]) -> (f32, f32, f32), max: usize, witness: bool) {
+        let len: usize = kani::any();
+        kani::assume(len >= 1 && len <= max);
+        let a = exact_vec(len, max);
+        let b = exact_vec(len, max);
+        let r = kernel(&a, &b);
+        if witness {
+            kani::cover!(len == max, "longest length reachable");
+            kani::cover!(len == 1, "shortest length reachable");
+        }
+        let _ = r;
+    }
+}
+
+macro_rules! c17_kernel {
+    ($name:ident, $wname:ident, $body:ident, $entry:ident, $max:expr, $unw:expr) => {
+        #[cfg(target_arch = "x86_64")]
+        #[kani::proof]
+        #[kani::unwind($unw)]
+        #[kani::stub(std::arch::x86_64::_mm256_fmadd_ps, crate::simd::verif_proofs::x86::fmadd256)]
+        #[kani::stub(std::arch::x86_64::_mm512_fmadd_ps, crate::simd::verif_proofs::x86::fmadd512)]
+        #[kani::stub(std::arch::x86_64::_mm512_add_ps, crate::simd::verif_proofs::x86::add512)]
+        #[kani::stub(std::arch::x86_64::_mm512_sub_ps, crate::simd::verif_proofs::x86::sub512)]
+        fn $name() {
+            x86::$body($entry, $max, false);
+        }
+        #[cfg(target_arch = "x86_64")]
+        #[kani::proof]
+        #[kani::unwind($unw)]
+        #[kani::stub(std::arch::x86_64::_mm256_fmadd_ps, crate::simd::verif_proofs::x86::fmadd256)]
+        #[kani::stub(std::arch::x86_64::_mm512_fmadd_ps, crate::simd::verif_proofs::x86::fmadd512)]
+        #[kani::stub(std::arch::x86_64::_mm512_add_ps, crate::simd::verif_proofs::x86::add512)]
+        #[kani::stub(std::arch::x86_64::_mm512_sub_ps, crate::simd::verif_proofs::x86::sub512)]
+        fn $wname() {
+            x86::$body($entry, $max, true);
+        }
+    };
+}
+
+// W = 4 (SSE2): lengths 1 ..= 4*4 + 4 + 3 = 23;  W = 8 (AVX2): 1 ..= 43;  W = 16 (AVX-512): 1 ..= 83
+c17_kernel!(c17_o1_dot_sse2, c17_o1_dot_sse2__witness, binary_body, dot_f32_sse2_entry, 23, 25);
+c17_kernel!(c17_o1_sumsq_sse2, c17_o1_sumsq_sse2__witness, unary_body, sum_squares_f32_sse2_entry, 23, 25);
+c17_kernel!(c17_o1_l2_sse2, c17_o1_l2_sse2__witness, binary_body, l2_distance_sq_f32_sse2_entry, 23, 25);
+c17_kernel!(c17_o1_dotnorms_sse2, c17_o1_dotnorms_sse2__witness, triple_body, dot_and_norms_f32_sse2_entry, 23, 25);
+c17_kernel!(c17_o1_dot_avx2, c17_o1_dot_avx2__witness, binary_body, dot_f32_avx2_entry, 43, 45);
+c17_kernel!(c17_o1_sumsq_avx2, c17_o1_sumsq_avx2__witness, unary_body, sum_squares_f32_avx2_entry, 43, 45);
+c17_kernel!(c17_o1_l2_avx2, c17_o1_l2_avx2__witness, binary_body, l2_distance_sq_f32_avx2_entry, 43, 45);
+c17_kernel!(c17_o1_dotnorms_avx2, c17_o1_dotnorms_avx2__witness, triple_body, dot_and_norms_f32_avx2_entry, 43, 45);
+c17_kernel!(c17_o1_dot_avx512, c17_o1_dot_avx512__witness, binary_body, dot_f32_avx512_entry, 83, 85);
+c17_kernel!(c17_o1_sumsq_avx512, c17_o1_sumsq_avx512__witness, unary_body, sum_squares_f32_avx512_entry, 83, 85);
+c17_kernel!(c17_o1_l2_avx512, c17_o1_l2_avx512__witness, binary_body, l2_distance_sq_f32_avx512_entry, 83, 85);
+c17_kernel!(c17_o1_dotnorms_avx512, c17_o1_dotnorms_avx512__witness, triple_body, dot_and_norms_f32_avx512_entry, 83, 85);
